@@ -16,6 +16,40 @@ CLAIMED = {
    ref="DESIGN.md §3 C03"),
 }
 
+
+CLAIMED.update({
+ "C08": dict(
+   technique="deterministic simulation: seeded operation histories with lifecycle events (clone, freeze/thaw, collect, persist+restart through a simulated disk with retryable faults), reference model Vec<bool> checked after every step",
+   text="Seeded exploration of operation histories on BitVectorMut against a Vec<bool> model, with restart through the simulated disk as one more generated operation; release-like and debug-assertion builds.",
+   note="Trusted: the Vec<bool> model and the observation code; arguments are kept inside the documented preconditions.",
+   ref="DESIGN.md §3 C08"),
+ "C09": dict(
+   technique="deterministic simulation with a cooperative fault point (buggify) at the prefetch sink: seeded perturbation of every prefetch position estimate; differential oracle rank_prefetch == rank; cross-build digest comparison (crate feature on/off)",
+   text="Seeded exploration: the simulator makes the prefetch position estimate arbitrarily wrong at the sink (8 perturbation kinds, per-run probability and kind mask) and checks that no answer changes and nothing panics; rank_prefetch is compared with rank for valid and invalid arguments; answer digests are compared between builds with and without the prefetch feature.",
+   note="Trusted: that prefetch_read_NTA is the only sink of the estimates (checked by reading); native runs cannot observe an out-of-bounds *read* that happens not to fault (the Miri engine of the thorough tier can).",
+   ref="DESIGN.md §3 C09"),
+ "C11": dict(
+   technique="deterministic simulation of the byte-stream transport: simulated disk with an explicit fault script (short/interrupted/failed reads and writes, buffering knobs, sync, crash, torn tail), oracle = original value (==, identical bytes, identical answers)",
+   text="Seeded exploration of values of all 19 serializable types x 5 bincode configurations x fault scripts on the simulated disk; full obligations when only retryable faults fired and the write was acknowledged, informational counts otherwise; fault-free and faulty configurations reported separately.",
+   note="Trusted: the simulated disk; equality is the type's own PartialEq; queries that fault on the original for reasons owned by C01/C04 are not generated (listed in spec.rs).",
+   ref="DESIGN.md §3 C11"),
+ "C12": dict(
+   technique="deterministic simulation: seeded call histories over {next, next_back, len} including calls after exhaustion, reference model VecDeque checked after every call",
+   text="Seeded exploration of call histories on every iterator the library hands out, against a VecDeque model, including behaviour after exhaustion.",
+   note="Trusted: the VecDeque model; for trees the element sequence is the tree's own get() (get versus the input sequence is C02/C03).",
+   ref="DESIGN.md §3 C12"),
+ "C13": dict(
+   technique="deterministic simulation: seeded push/extend/clone histories on the builder with mid-history snapshots, reference model Vec<u8>",
+   text="Seeded exploration of builder histories over all 12 integer types and arbitrary bit patterns against a Vec<u8> model of the two low bits.",
+   note="Trusted: the Vec<u8> model.",
+   ref="DESIGN.md §3 C13"),
+ "C18": dict(
+   technique="deterministic simulation of thread schedules: shuttle (seeded random and PCT schedulers, replayable schedules) over a shared reference with yield points between and inside queries; sequential purity histories; Send+Sync at compile time",
+   text="Seeded search over thread schedules: 2-4 simulated threads query one shared structure, every answer is compared with the single-thread answer and the serialized form is compared before/after; plus sequential purity and a compile-time Send+Sync assertion for every public structure. Today the structures have no interior mutability, so the check passes trivially; its value is against changes.",
+   note="Trusted: shuttle's scheduler; context switches happen only at the H4 yield points and between queries (the Miri engine of the thorough tier pre-empts anywhere and detects data races).",
+   ref="DESIGN.md §3 C18"),
+})
+
 NOT_APPLICABLE = {
  "C01": "pure function of the input sequence and the query arguments: no schedule, fault, crash point or history to search (DESIGN.md §4)",
  "C04": "totality/memory safety over the argument domain is decided by sanitizer-instrumented builds driven over inputs; no interleaving, fault or history enters the statement (DESIGN.md §4)",
@@ -30,7 +64,7 @@ NOT_APPLICABLE = {
  "C19": "pure; its one nondeterminism-dependent clause (Huffman trees built by different paths answer identically) is implied by C02/C03, where every path and order is held to the same model (DESIGN.md §4)",
 }
 
-PENDING = {p: "check under construction in this round (claimed in DESIGN.md §3; not registered until its command exists)" for p in ["C08","C09","C11","C12","C13","C18"]}
+PENDING = {}
 
 def main():
     props = [json.loads(l)["id"] for l in open(os.path.join(HERE, "properties.jsonl"))]
